@@ -186,7 +186,12 @@ impl HostTimer {
     }
 
     pub(crate) fn tick(&mut self, duration: Duration) {
-        self.elapsed += duration
+        self.elapsed += duration;
+        // The host's turn is over. Until the next one starts there is no
+        // runtime clock to measure against: code of the host that runs in
+        // between (destructors during `crash` / `bounce`, the software
+        // factory) would otherwise mix in the wall clock.
+        self.now = None;
     }
 
     /// Set a new `Instant` for each iteration of the simulation. `elapsed` is
@@ -202,7 +207,7 @@ impl HostTimer {
 
     /// Returns how long the host has been executing for in virtual time.
     pub(crate) fn elapsed(&self) -> Duration {
-        let run_duration = self.now.expect("host instant not set").elapsed();
+        let run_duration = self.now.map(|now| now.elapsed()).unwrap_or_default();
         self.elapsed + run_duration
     }
 
